@@ -347,12 +347,38 @@ func routeInstance(name, mode string, accs, clis []string, pb int, delay bool) *
 				if errors.Is(r.err, vctx.Canceled) && !r.canceler {
 					return &vsched.Violation{Key: "accept-error", What: fmt.Sprintf("acceptor %d reports cancellation but nobody cancelled it", i)}
 				}
-				// liveness: a sole, uncancelled acceptor whose client completed the handshake before its deadline gets the connection
-				if !r.canceler && nSecret[r.secret] == 1 {
-					for j, p := range peers {
-						if peerSecret[j] == r.secret && !forged[j] && p.HandshakeDone && p.HandshakeAt < r.timeout {
-							return &vsched.Violation{Key: "completed-handshake-not-delivered", What: fmt.Sprintf("%s completed the handshake at %v but acceptor %d (deadline %v) returned %v", p.Name, p.HandshakeAt, i, r.timeout, r.err)}
-						}
+			}
+			// delivery: a handshake can only complete while an acceptor of that secret is registered, and the
+			// registration (channel first, certificates second; removed in the opposite order) stays until that
+			// acceptor returns. So if nobody cancels the acceptors of a secret and a genuine client of that secret
+			// completed its handshake before the earliest of their deadlines, at least one of them got a connection
+			// (with equal secrets the later acceptor is refused and must not disturb the earlier one).
+			for s, cnt := range nSecret {
+				if cnt == 0 {
+					continue
+				}
+				minTO := time.Duration(1 << 62)
+				cancelled, got := false, 0
+				for _, r := range res {
+					if r.secret != s {
+						continue
+					}
+					if r.canceler {
+						cancelled = true
+					}
+					if r.timeout < minTO {
+						minTO = r.timeout
+					}
+					if r.err == nil {
+						got++
+					}
+				}
+				if cancelled || got > 0 {
+					continue
+				}
+				for j, p := range peers {
+					if peerSecret[j] == s && !forged[j] && p.HandshakeDone && p.HandshakeAt < minTO {
+						return &vsched.Violation{Key: "completed-handshake-not-delivered", What: fmt.Sprintf("%s completed the handshake at %v but none of the %d uncancelled acceptor(s) of secret %d (earliest deadline %v) received a connection", p.Name, p.HandshakeAt, cnt, s, minTO)}
 					}
 				}
 			}
